@@ -61,7 +61,9 @@ IsVetoTriple == Ev.code = 777 /\ Ev.msg = "veto-msg" /\ Ev.cause = "veto-cause"
 \* with a panicking plugin only the "only if" direction is demanded (the statement does not say which
 \* error a plugin panic becomes): OK still needs a handler that returned OK and a decoded reply
 StatusRule ==
-  IF ppanic # "none" THEN (Ev.code = 0 => hexit = "ok" /\ cfg.rdec = "ok" /\ Ev.resok)
+  \* a handler that outlived the context age of its session: its reply could not be written, the caller is told so (500)
+  IF cfg.res = "ageshort" /\ hexit # "none" THEN Ev.code = 500 /\ Ev.msg = "Internal Server Error"
+  ELSE IF ppanic # "none" THEN (Ev.code = 0 => hexit = "ok" /\ cfg.rdec = "ok" /\ Ev.resok)
   ELSE IF Ev.code = 0
     THEN hexit = "ok" /\ cfg.hout # "unpackable" /\ cfg.rdec = "ok" /\ ~CliReadVeto /\ Ev.resok
     ELSE CASE hexit = "status" -> IF CliReadVeto THEN IsVetoTriple
